@@ -586,10 +586,22 @@ func oracleOneCreator(w *world) (string, string) {
 // `to`) and closed the engine; after Open no current view returns the deleted node.
 func oracleNoEdgeToDeleted(dead, from, to string) func(w *world) (string, string) {
 	return func(w *world) (string, string) {
+		closeStart := 1 << 30
 		for _, c := range w.calls {
-			if c.ret != "ok" {
-				return "", "" // the delete / snapshot / close itself was refused: nothing to check
+			if c.op == "close" && c.start < closeStart {
+				closeStart = c.start
 			}
+		}
+		for _, c := range w.calls {
+			if c.op == "vdel:"+dead && (c.ret != "ok" || c.end > closeStart) {
+				// the delete was refused (engine already closed), or it was acknowledged while
+				// Close was already running: C14 promises persistence only for writes
+				// acknowledged before Close was called
+				return "", ""
+			}
+		}
+		if err := w.e.Close(); err != nil { // idempotent when a thread has closed the engine already
+			return "close-failed", err.Error()
 		}
 		w.e = nil
 		opts := engine.DefaultOptions(w.dir)
@@ -740,6 +752,13 @@ func all() []scen {
 			w.do("client", "rewrite", "", func() string { return errStr(w.e.RewriteAOF()) })
 			w.do("client", "close", "", func() string { return errStr(w.e.Close()) })
 		})}, oracleNoEdgeToDeleted("b", "a", "c")},
+		// the same with Close on a thread of its own: it may land while the snapshot waits for the
+		// cascade (Close cuts the cascade short; the snapshot must not then capture the half-done state
+		// and drop the VDEL record)
+		{"delete-snapshot-vs-close", setupOpt{vectors: []string{"a", "b", "c"}, prelinks: [][2]string{{"a", "b"}, {"b", "c"}}}, []explore.Thread{guard("client", func(w *world) {
+			w.do("client", "vdel:b", "", func() string { return errStr(w.e.VDelete("i", "b")) })
+			w.do("client", "snapshot", "", func() string { return errStr(w.e.SaveSnapshot()) })
+		}), simple("closer", "close", func(w *world) error { return w.e.Close() })}, oracleNoEdgeToDeleted("b", "a", "c")},
 		// one client: delete b, add b again, link a->b and b->c. The cascade of the delete runs
 		// in the background; the links made to the new b after the delete returned are not its to
 		// remove ("unless it is explicitly linked again", "a re-added id behaves as new")
